@@ -5,9 +5,9 @@ prop=$1; patch=$(readlink -f "$2"); tier=${3:-quick}
 wt=/tmp/seedwt-$prop-$$
 git -C /repo worktree add -q --detach "$wt" HEAD || exit 2
 if ! git -C "$wt" apply "$patch"; then echo "PATCH-DOES-NOT-APPLY"; git -C /repo worktree remove --force "$wt"; exit 3; fi
-cd /verif && VERIF_REPO="$wt" ./check "$prop" "$tier" > /tmp/seedtest-$prop-$$.log 2>&1; rc=$?
+cd /verif && VERIF_REPLAYS=/tmp/seedtest-replays-$$ VERIF_REPO="$wt" ./check "$prop" "$tier" > /tmp/seedtest-$prop-$$.log 2>&1; rc=$?
 grep -E "^(VIOLATION|  signature|  what|KNOWN-FINDING|INCONCLUSIVE|BUILD-FAILED|$prop )" /tmp/seedtest-$prop-$$.log | cut -c1-300
 echo "exit=$rc"
 git -C /repo worktree remove --force "$wt"
-alt=$(python3 -c "import hashlib,sys;print(hashlib.sha1(sys.argv[1].encode()).hexdigest()[:8])" "$wt"); rm -rf /verif/.bin/alt-$alt /tmp/seedtest-$prop-$$.log
+alt=$(python3 -c "import hashlib,sys;print(hashlib.sha1(sys.argv[1].encode()).hexdigest()[:8])" "$wt"); rm -rf /tmp/seedtest-replays-$$ /verif/.bin/alt-$alt /tmp/seedtest-$prop-$$.log
 exit $rc
